@@ -37,6 +37,7 @@ class Emitter:
         self.extra_scalar_fns = scalar_fns or {}
         self.enum_values = enum_values or {}
         self.out_types = {}
+        self.stmt_call_handler = None
 
     # ---- helpers
     def lit(self, text, want):
@@ -60,7 +61,7 @@ class Emitter:
         return r
 
     def coerce(self, e, t, want):
-        if want is None or t == want:
+        if want is None or t == want or want not in ('S', 'V', 'B', 'N'):
             return e, t
         if t == 'N' and want == 'S':
             return f'((({e}) : Nat) : α)', 'S'
@@ -155,7 +156,11 @@ class Emitter:
                 return (f'({x} == {y})' if op == '==' else f'({x} != {y})'), 'B'
             if tx != ty:
                 # re-elaborate literal / nat side at the other type
-                if tx == 'N' and ty == 'S':
+                if a[3][0] == 'num' and tx == 'N':
+                    y, ty = self.expr(a[3], 'N')
+                elif a[2][0] == 'num' and ty == 'N':
+                    x, tx = self.expr(a[2], 'N')
+                elif tx == 'N' and ty == 'S':
                     x, tx = self.expr(a[2], 'S')
                 elif tx == 'S' and ty == 'N':
                     y, ty = self.expr(a[3], 'S')
@@ -176,6 +181,12 @@ class Emitter:
         if op in ('+', '-', '*', '/', '%'):
             x, tx = self.expr(a[2], 'N' if want == 'N' else None)
             y, ty = self.expr(a[3], 'N' if want == 'N' else None)
+            if want != 'S':
+                # integer literal next to an integer expression stays integral (C++ usual conversions)
+                if tx == 'N' and ty == 'S' and a[3][0] == 'num':
+                    y, ty = self.expr(a[3], 'N') if a[3][1].rstrip('uUlL').isdigit() else (y, ty)
+                if ty == 'N' and tx == 'S' and a[2][0] == 'num':
+                    x, tx = self.expr(a[2], 'N') if a[2][1].rstrip('uUlL').isdigit() else (x, tx)
             if tx == 'N' and ty == 'N':
                 return f'({x} {op} {y})', 'N'
             if tx == 'N':
@@ -434,6 +445,17 @@ class Emitter:
                 body = self.stmts(rest, final)
                 self.locals = saved
                 return f'let {lean} := {r}\n{body}'
+            if e[0] == 'call' and self.stmt_call_handler is not None:
+                binds = self.stmt_call_handler(e, self)
+                if binds is not None:
+                    saved = dict(self.locals)
+                    lines = []
+                    for nm, ty, lean_rhs in binds:
+                        ln = self.bind(nm, ty)
+                        lines.append(f'let {ln} := {lean_rhs}')
+                    body = self.stmts(rest, final)
+                    self.locals = saved
+                    return '\n'.join(lines + [body])
             raise TranslationError(f'unsupported expression statement {e[0]}')
         if k == 'return':
             if s[1] is None:
